@@ -500,7 +500,7 @@ def mkParams (stats : List (ColStat R)) (ch : Nat) : Weights R → Option (Param
          shapeOk stats.length ch b2 then pure (.excel n w1 w2 b1 b2) else none
   | .embedding table => do
       let ns ← gather statNumCat stats
-      if table.length == ns.sum + 1 then pure (.embedding (embOffsets ns) table) else none
+      if table.length == ns.sum + 1 && table.all (·.length == ch) then pure (.embedding (embOffsets ns) table) else none
   | .bag mode tables => do
       let ns ← gather statNumMulti stats
       if tables.length == ns.length && (List.zipWith (fun t n => t.length == n + 1) tables ns).all id then
@@ -611,15 +611,19 @@ def catDim1 {R : Type} (xs : List (Out R)) : Option (Out R) :=
             (List.range x.b).map fun r => xs.flatMap fun y => y.data.getD r []⟩
     else none
 
+/-- one iteration of the loop of `StypeWiseFeatureEncoder.forward`: the block of stype `s` -/
+def wisePart {R : Type} (S : SOps R) (w : Wise R) (tf : List (Group R)) (s : Stype) :
+    Option (Out R × List String) := do
+  let g ← tf.find? (·.st == s)                 -- feat = tf.feat_dict[stype]
+  let names ← w.colNames.lookup s              -- col_names = self.col_names_dict[stype]
+  let e ← w.encoders.lookup s                  -- self.encoder_dict[stype.value]
+  let x ← forward S e g.rows g.cols names.length g.feat
+  pure (x, names)
+
 /-- `StypeWiseFeatureEncoder.forward` -/
 def wiseForward {R : Type} (S : SOps R) (w : Wise R) (tf : List (Group R)) :
     Option (Out R × List String) := do
-  let parts ← (canonicalStypes tf).mapM fun s => do
-    let g ← tf.find? (·.st == s)
-    let names ← w.colNames.lookup s
-    let e ← w.encoders.lookup s
-    let x ← forward S e g.rows g.cols names.length g.feat
-    pure (x, names)
+  let parts ← gather (wisePart S w tf) (canonicalStypes tf)
   let x ← catDim1 (parts.map (·.1))
   pure (x, parts.flatMap (·.2))
 
